@@ -24,9 +24,10 @@ type c04Decl struct {
 	name    string // Go name (method: method name)
 	recv    int    // method: index of its struct
 	refs    []c04Ref
-	self    bool   // a function or method that calls itself
-	extra   string // const: second name declared by the same spec (const A, B uint64 = ...)
-	ptrRecv bool   // method on a named integer type: pointer receiver
+	self    bool     // a function or method that calls itself
+	extra   string   // const: second name declared by the same spec (const A, B uint64 = ...)
+	shadow  []string // func: extra body lines that use a LOCAL variable named like a later package-level declaration
+	ptrRecv bool     // method on a named integer type: pointer receiver
 }
 type c04Ref struct {
 	to   int
@@ -106,6 +107,7 @@ func c04Render(ds []c04Decl, i int) string {
 			body = append(body, fmt.Sprintf("_ = %s + 1", t.name))
 		}
 	}
+	body = append(body, d.shadow...)
 	if d.self && d.kind == "func" && len(params) == 0 {
 		body = append(body, fmt.Sprintf("_ = %s()", d.name))
 	}
@@ -252,6 +254,49 @@ func C04(c *ev.Ctx) {
 			d.self = (d.kind == "func" || d.kind == "method") && rr.IntN(4) == 0
 			ds = append(ds, d)
 		}
+		// some declarations are named like predeclared identifiers that the translator does not treat specially
+		if rr.IntN(3) == 0 {
+			pool := []string{"min", "max", "clear", "close", "print", "real", "imag", "recover"}
+			rr.Shuffle(len(pool), func(i, j int) { pool[i], pool[j] = pool[j], pool[i] })
+			pi := 0
+			for i := range ds {
+				if ds[i].kind == "func" && rr.IntN(2) == 0 && pi < len(pool) {
+					ds[i].name = pool[pi]
+					pi++
+				}
+			}
+		}
+		// a function may use a LOCAL variable named like a later function that depends on it (no dependency in Go)
+		for i := range ds {
+			if ds[i].kind != "func" || rr.IntN(3) != 0 {
+				continue
+			}
+			var st, later []int
+			for j := 0; j < i; j++ {
+				if ds[j].kind == "struct" {
+					for _, rf := range ds[i].refs {
+						if rf.to == j {
+							st = append(st, j)
+						}
+					}
+				}
+			}
+			for k := i + 1; k < len(ds); k++ {
+				if ds[k].kind == "func" {
+					for _, rf := range ds[k].refs {
+						if rf.to == i {
+							later = append(later, k)
+						}
+					}
+				}
+			}
+			if len(st) == 0 || len(later) == 0 {
+				continue
+			}
+			nm, sn := ds[later[rr.IntN(len(later))]].name, ds[st[0]].name
+			ds[i].shadow = []string{fmt.Sprintf("var %s %s", nm, sn), fmt.Sprintf("%s.a = 1", nm), fmt.Sprintf("_ = %s.a", nm)}
+			ds[i].self = false
+		}
 		// scramble the order and split into files
 		order := rr.Perm(n)
 		nf := 1 + rr.IntN(3)
@@ -279,7 +324,7 @@ func C04(c *ev.Ctx) {
 	}
 	gout := m.runGoose(c, "-ignore-errors")
 	if gout.exit == 2 || strings.Contains(gout.stderr, "goroutine ") {
-		c.Inconclusive("goose crashed on the C04 batch:\n%s", firstLines(gout.stderr, 12))
+		c04CrashTriage(c, m, gout.stderr)
 		return
 	}
 	errs := errorLines(gout.stderr)
@@ -441,7 +486,7 @@ func c04Rich(c *ev.Ctx, rr *rand.Rand) int {
 	}
 	gout := m.runGoose(c, "-ignore-errors")
 	if gout.exit == 2 || strings.Contains(gout.stderr, "goroutine ") {
-		c.Inconclusive("goose crashed on the rich C04 batch:\n%s", firstLines(gout.stderr, 12))
+		c04CrashTriage(c, m, gout.stderr)
 		return 0
 	}
 	errs := errorLines(gout.stderr)
@@ -521,4 +566,32 @@ func c04Rich(c *ev.Ctx, rr *rand.Rand) int {
 		}
 	}
 	return checked
+}
+
+// c04CrashTriage: the batch made the translator abort. Every package is translated alone; a package that type-checks
+// and makes goose abort yields no definition at all for any of its declarations ("exactly one definition" fails).
+func c04CrashTriage(c *ev.Ctx, m *genModule, batchErr string) {
+	found := 0
+	all := m.pkgs
+	for _, p := range all {
+		m.pkgs = []string{p}
+		g := m.runGoose(c, "-ignore-errors")
+		if g.exit == 2 || strings.Contains(g.stderr, "goroutine ") || strings.Contains(g.stderr, "fatal error") {
+			src := ""
+			files, _ := filepath.Glob(filepath.Join(m.dir, p, "*.go"))
+			for _, f := range files {
+				b, _ := os.ReadFile(f)
+				src += "// " + filepath.Base(f) + "\n" + string(b) + "\n"
+			}
+			c.Violation("c04.crash", fmt.Sprintf("goose aborts on package %s (exit %d): none of its declarations gets a definition\n%s", p, g.exit, firstLines(g.stderr, 8)), map[string]string{"gen.go.txt": src, "stderr.txt": firstLines(g.stderr, 60)})
+			found++
+			if found >= 3 {
+				break
+			}
+		}
+	}
+	m.pkgs = all
+	if found == 0 {
+		c.Inconclusive("goose crashed on a C04 batch but on no package alone:\n%s", firstLines(batchErr, 12))
+	}
 }
